@@ -65,7 +65,8 @@ func main() {
 			fmt.Fprintf(os.Stderr, "Unexpected error: %v\n", err)
 			os.Exit(1)
 		}
-		if fi.Size() == 0 {
+		// a pipe reports a size of 0, only refuse an interactive terminal or an empty regular file
+		if fi.Mode()&os.ModeCharDevice != 0 || (fi.Mode().IsRegular() && fi.Size() == 0) {
 			fmt.Fprintln(os.Stderr, "No data provided on stdin.  Use '-file' or pass data on stdin.")
 			os.Exit(1)
 		}
